@@ -222,6 +222,17 @@ def reset_module_state(boot):
         fn._invalidate_cache()
     ti._cell_ratio = 0.5
     ti.AutoCellRatio.is_supported = None
+    img = sys.modules.get("term_image.image")
+    if img is not None:
+        for cls in (img.KittyImage, img.ITerm2Image, img.BlockImage):
+            cls._supported = None
+            cls._forced_support = False
+            for name, val in (("_TERM", ""), ("_TERM_VERSION", ""), ("_KITTY_VERSION", ())):
+                if hasattr(cls, name):
+                    setattr(cls, name, val)
+        inv = getattr(img.TextImage._is_on_kitty, "_invalidate_cache", None)
+        if inv:
+            inv()
 
 
 class World:
